@@ -93,13 +93,15 @@ Record wal := {
   w_pw : pwriter;
   w_sync : option syncpt;       (* last completed fdatasync *)
   w_nrec : N;                   (* logical records handed to the wal so far (bookkeeping of the check) *)
-  w_tailrec : N                 (* value of w_nrec when the tail was started *)
+  w_tailrec : N;                (* value of w_nrec when the tail was started *)
+  w_tailsize : N                (* length of the tail file: SegmentSizeBytes for a segment the wal allocated,
+                                   the file's own length for a tail taken over by Open *)
 }.
 
 Definition set_tail (w : wal) (tail : bytes) (crc : N) (pw : pwriter) : wal :=
   {| w_opt := w_opt w; w_segsize := w_segsize w; w_meta := w_meta w; w_state := w_state w; w_enti := w_enti w;
      w_crc := crc; w_closed := w_closed w; w_seq := w_seq w; w_idx := w_idx w; w_tail := tail; w_pw := pw;
-     w_sync := w_sync w; w_nrec := w_nrec w; w_tailrec := w_tailrec w |}.
+     w_sync := w_sync w; w_nrec := w_nrec w; w_tailrec := w_tailrec w; w_tailsize := w_tailsize w |}.
 
 (* encoder.encode through the page writer: an 8-byte write, then the padded record *)
 Definition w_encode (ty : N) (data : option bytes) (w : wal) : wal :=
@@ -109,15 +111,15 @@ Definition w_encode (ty : N) (data : option bytes) (w : wal) : wal :=
 Definition w_set_enti (w : wal) (i : N) : wal :=
   {| w_opt := w_opt w; w_segsize := w_segsize w; w_meta := w_meta w; w_state := w_state w; w_enti := i;
      w_crc := w_crc w; w_closed := w_closed w; w_seq := w_seq w; w_idx := w_idx w; w_tail := w_tail w; w_pw := w_pw w;
-     w_sync := w_sync w; w_nrec := w_nrec w; w_tailrec := w_tailrec w |}.
+     w_sync := w_sync w; w_nrec := w_nrec w; w_tailrec := w_tailrec w; w_tailsize := w_tailsize w |}.
 Definition w_set_state (w : wal) (s : hardstate) : wal :=
   {| w_opt := w_opt w; w_segsize := w_segsize w; w_meta := w_meta w; w_state := s; w_enti := w_enti w;
      w_crc := w_crc w; w_closed := w_closed w; w_seq := w_seq w; w_idx := w_idx w; w_tail := w_tail w; w_pw := w_pw w;
-     w_sync := w_sync w; w_nrec := w_nrec w; w_tailrec := w_tailrec w |}.
+     w_sync := w_sync w; w_nrec := w_nrec w; w_tailrec := w_tailrec w; w_tailsize := w_tailsize w |}.
 Definition w_add_nrec (w : wal) (k : N) : wal :=
   {| w_opt := w_opt w; w_segsize := w_segsize w; w_meta := w_meta w; w_state := w_state w; w_enti := w_enti w;
      w_crc := w_crc w; w_closed := w_closed w; w_seq := w_seq w; w_idx := w_idx w; w_tail := w_tail w; w_pw := w_pw w;
-     w_sync := w_sync w; w_nrec := w_nrec w + k; w_tailrec := w_tailrec w |}.
+     w_sync := w_sync w; w_nrec := w_nrec w + k; w_tailrec := w_tailrec w; w_tailsize := w_tailsize w |}.
 
 (* WAL.sync(fsync): flush the page writer; with fsync, fdatasync the tail *)
 Definition w_sync_op (fsync : bool) (w : wal) : wal :=
@@ -126,7 +128,7 @@ Definition w_sync_op (fsync : bool) (w : wal) : wal :=
      w_crc := w_crc w; w_closed := w_closed w; w_seq := w_seq w; w_idx := w_idx w; w_tail := w_tail w; w_pw := pw;
      w_sync := if fsync then Some {| sy_seq := w_seq w; sy_idx := w_idx w; sy_off := pw_flushed pw; sy_rec := w_nrec w |}
                else w_sync w;
-     w_nrec := w_nrec w; w_tailrec := w_tailrec w |}.
+     w_nrec := w_nrec w; w_tailrec := w_tailrec w; w_tailsize := w_tailsize w |}.
 
 Definition save_entry (e : entry) (w : wal) : wal :=
   w_set_enti (w_encode c_entryType (Some (entry_marshal e)) w) (e_index e).
@@ -143,7 +145,7 @@ Definition w_cut (w : wal) : wal :=
                w_closed := w_closed w1 ++ [{| sg_seq := w_seq w1; sg_idx := w_idx w1; sg_bytes := w_tail w1; sg_rec := w_tailrec w1 |}];
                w_seq := w_seq w1 + 1; w_idx := w_enti w1 + 1; w_tail := [];
                w_pw := {| pw_off := 0; pw_buf := 0; pw_flushed := 0 |};
-               w_sync := w_sync w1; w_nrec := w_nrec w1; w_tailrec := w_nrec w1 |} in
+               w_sync := w_sync w1; w_nrec := w_nrec w1; w_tailrec := w_nrec w1; w_tailsize := w_segsize w1 |} in
   let w3 := w_encode c_crcType None w2 in
   let w4 := w_encode c_metadataType (w_meta w3) w3 in
   let w5 := save_state (w_state w4) w4 in
@@ -177,7 +179,7 @@ Definition w_create (opt : bool) (segsize : N) (meta : option bytes) : wal :=
   let w0 := {| w_opt := opt; w_segsize := segsize; w_meta := meta; w_state := hs_empty; w_enti := 0; w_crc := 0;
                w_closed := []; w_seq := 0; w_idx := 0; w_tail := [];
                w_pw := {| pw_off := 0; pw_buf := 0; pw_flushed := 0 |};
-               w_sync := None; w_nrec := 1; w_tailrec := 0 |} in
+               w_sync := None; w_nrec := 1; w_tailrec := 0; w_tailsize := segsize |} in
   let w1 := w_encode c_crcType None w0 in
   let w2 := w_encode c_metadataType meta w1 in
   w_save_snapshot {| sn_index := 0; sn_term := 0 |} w2.
@@ -197,7 +199,7 @@ Definition w_release (index : N) (w : wal) : wal :=
                  end in
   {| w_opt := w_opt w; w_segsize := w_segsize w; w_meta := w_meta w; w_state := w_state w; w_enti := w_enti w;
      w_crc := w_crc w; w_closed := skipn (N.to_nat smaller) (w_closed w); w_seq := w_seq w; w_idx := w_idx w;
-     w_tail := w_tail w; w_pw := w_pw w; w_sync := w_sync w; w_nrec := w_nrec w; w_tailrec := w_tailrec w |}.
+     w_tail := w_tail w; w_pw := w_pw w; w_sync := w_sync w; w_nrec := w_nrec w; w_tailrec := w_tailrec w; w_tailsize := w_tailsize w |}.
 
 Inductive wop :=
 | OSave (st : hardstate) (ents : list entry)
@@ -227,7 +229,7 @@ Definition w_run (opt : bool) (segsize : N) (meta : option bytes) (ops : list wo
 (* the directory after Close: closed segments as written; the tail preallocated to SegmentSizeBytes *)
 Definition tail_file (w : wal) : segfile :=
   {| sg_seq := w_seq w; sg_idx := w_idx w;
-     sg_bytes := w_tail w ++ zeros (w_segsize w - blen (w_tail w)); sg_rec := w_tailrec w |}.
+     sg_bytes := w_tail w ++ zeros (w_tailsize w - blen (w_tail w)); sg_rec := w_tailrec w |}.
 Definition w_files (w : wal) : list segfile := w_closed w ++ [tail_file w].
 
 (* ================================================================ decoder *)
@@ -697,3 +699,41 @@ Definition no_crc_collision_cut (crc : N) (x : N * option bytes) (j : N) : Prop 
 (* a second, independent content hash used only to print entries (FNV-1a, 32 bit) *)
 Definition fnv1a32 (bs : bytes) : N :=
   fold_left (fun h b => N.land (N.lxor h b * 16777619) 4294967295) bs 2166136261.
+
+(* ================================================================ reopening for append *)
+(* wal.Open + ReadAll in write mode, when it succeeds: the tail is cut at lastValidOff and zero-filled to its
+   old length (Seek(lastOffset) + pkg/fileutil.ZeroToEnd = Truncate(off) + Preallocate(len)), the encoder
+   continues the decoder's crc at that offset; w.enti is the index of the last entry record read; w.state is
+   NOT restored (ReadAll only returns it); metadata is what was read. *)
+Definition last_entry_index (rs : list wrecord) : N :=
+  fold_left (fun acc r =>
+               if r_type r =? c_entryType
+               then match entry_unmarshal (data_or_nil (r_data r)) with POk e => e_index e | PErr _ => acc end
+               else acc) rs 0.
+
+Definition reopen_tail (off : N) (img : bytes) : bytes := btake off img ++ zeros (blen img - off).
+
+Definition writer_after (opt : bool) (seg : N) (files : list segfile) (at_ : wsnap) : option wal :=
+  match select_files files at_ with
+  | None => None
+  | Some sel =>
+    match read_all at_ (map sg_bytes sel) with
+    | RAErr _ => None
+    | RAOk meta st ents off crc =>
+      match rev files with
+      | [] => None
+      | tl :: before_rev =>
+        let '(rs, _, _) := decode_all (map sg_bytes sel) in
+        Some {| w_opt := opt; w_segsize := seg; w_meta := meta; w_state := hs_empty;
+                w_enti := last_entry_index rs; w_crc := crc;
+                w_closed := rev before_rev; w_seq := sg_seq tl; w_idx := sg_idx tl;
+                w_tail := btake off (sg_bytes tl);
+                w_pw := {| pw_off := off; pw_buf := 0; pw_flushed := off |};
+                w_sync := None; w_nrec := 0; w_tailrec := 0;
+                w_tailsize := blen (sg_bytes tl) |}
+      end
+    end
+  end.
+
+(* the directory as the first recovery leaves it (before anything is appended) *)
+Definition recovered_files (w : wal) : list segfile := w_files w.
